@@ -213,7 +213,15 @@ func printers(c *hc.Ctx) {
 		kinds := []string{"L", "LQC", "LQCA", "A", "LHV", "LQCAHV", "QA"}[c.Intn(7)]
 		wide := c.Chance(0.35)
 		var p *canvas.Path
-		if wide {
+		if c.Chance(0.3) {
+			wide = c.Chance(0.15)
+			coord := c.GenCoord
+			if wide {
+				coord = func() float64 { return genCoordWide(c) }
+			}
+			p = genPathCoincident(c, []string{"L", "L", "LQC", "LA"}[c.Intn(4)], coord)
+			c.Count("path:coincident-movetos")
+		} else if wide {
 			p = genPathWide(c, kinds, 6, func() float64 { return genCoordWide(c) })
 		} else {
 			p = genPathWide(c, kinds, 6, c.GenCoord)
@@ -260,6 +268,8 @@ func printers(c *hc.Ctx) {
 			got, err := interpSVG(ts)
 			if err != nil {
 				fail(c, "string-syntax", "p.String() does not interpret: "+err.Error(), replay)
+			} else if bad := sameStructure(want, got, 1e-15, 0); bad != "" {
+				fail(c, "string-decode:subpaths", "p.String() decodes to a different subpath structure: "+bad, replay)
 			} else if bad, _ := sameGeometry(want, got, 1e-15, 0); bad != "" {
 				fail(c, "string-decode", "p.String() decodes to a different path: "+bad, replay)
 			}
@@ -282,6 +292,8 @@ func printers(c *hc.Ctx) {
 				got, err := interpSVG(ts)
 				if err != nil {
 					fail(c, "tosvg-syntax", "p.ToSVG() does not interpret: "+err.Error(), replay)
+				} else if bad := sameStructure(want, got, rel, 1e-10); bad != "" {
+					fail(c, "tosvg-decode:subpaths", "p.ToSVG() decodes to a different subpath structure: "+bad, replay)
 				} else if bad, w := sameGeometry(want, got, rel, 1e-10); bad != "" {
 					fail(c, "tosvg-decode", "p.ToSVG() decodes to different geometry: "+bad, replay)
 				} else if w > 0.25 {
@@ -294,6 +306,12 @@ func printers(c *hc.Ctx) {
 				fail(c, "tosvg-roundtrip:rejected", fmt.Sprintf("ParseSVGPath(p.ToSVG()) fails: %v %v", o.panic, o.err), replay)
 			} else if segs2, err := hc.Decode(o.p.Data()); err != nil {
 				fail(c, "tosvg-roundtrip:framing", err.Error(), replay)
+			} else if bad := sameStructure(want, toG(segs2), rel, 1e-10); bad != "" {
+				if tok := lexerGross(svg); tok != "" {
+					fail(c, "tosvg-roundtrip:number-wrong-large-exponent", "ParseSVGPath(p.ToSVG()) mis-reads "+tok+": "+bad, map[string]any{"path": p.String(), "tosvg": svg, "value": tok, "class": "lexer-gross"})
+				} else {
+					fail(c, "tosvg-roundtrip:subpaths", fmt.Sprintf("ParseSVGPath(p.ToSVG()) = %q has a different subpath structure: %s", o.p.String(), bad), replay)
+				}
 			} else if bad, _ := sameGeometry(want, toG(segs2), rel, 1e-10); bad == "" {
 				// same structure (up to sub-precision lines), same geometry
 			} else if len(dropNull(toG(segs2))) != len(dropNull(want)) {
@@ -592,4 +610,81 @@ func lineMergeClass(d []float64) (class, why string) {
 		}
 	}
 	return class, why
+}
+
+// subpath is what fill rules, caps/joins, markers and Split see: where a subpath starts, whether it
+// is closed, and how far it extends.
+type subpath struct {
+	start  hc.P2
+	closed bool
+	length float64 // sum of chord lengths of its segments (coarse; only to recognise empty ones)
+}
+
+// subpathsOf splits decoded segments into subpaths.  A subpath starts at a moveto, or — SVG 1.1
+// §8.3.3 — at the first drawing command after a closepath, from the closed subpath's start point.
+// Subpaths without drawing segments (a bare moveto) are not listed.
+func subpathsOf(gs []gseg) []subpath {
+	var out []subpath
+	open := false
+	afterClose := false
+	for _, g := range gs {
+		switch g.Kind {
+		case 'M':
+			open, afterClose = false, false
+			out = append(out, subpath{start: g.End})
+		case 'Z':
+			if len(out) > 0 {
+				out[len(out)-1].closed = true
+				out[len(out)-1].length += g.P0.Dist(g.End)
+			}
+			open, afterClose = false, true
+		default:
+			if afterClose || len(out) == 0 {
+				out = append(out, subpath{start: g.P0})
+				afterClose = false
+			}
+			open = true
+			out[len(out)-1].length += g.P0.Dist(g.End) + g.P0.Dist(g.At(0.5))
+		}
+	}
+	_ = open
+	var kept []subpath
+	for _, s := range out {
+		if s.length > 0 {
+			kept = append(kept, s)
+		}
+	}
+	return kept
+}
+
+// sameStructure: same number of (non-empty) subpaths, each open/closed alike and starting at the
+// same point (to the printed precision).  Subpaths shorter than the precision may be missing.
+func sameStructure(want, got []gseg, rel, abs float64) string {
+	ws := make([]hc.Seg, len(want))
+	for i := range want {
+		ws[i] = want[i].Seg
+	}
+	tol := abs + 4*rel*pathScale(ws)
+	drop := func(ss []subpath) []subpath {
+		var out []subpath
+		for _, s := range ss {
+			if s.length > 16*tol+1e-10 {
+				out = append(out, s)
+			}
+		}
+		return out
+	}
+	a, b := drop(subpathsOf(want)), drop(subpathsOf(got))
+	if len(a) != len(b) {
+		return fmt.Sprintf("%d subpaths, want %d", len(b), len(a))
+	}
+	for i := range a {
+		if a[i].closed != b[i].closed {
+			return fmt.Sprintf("subpath %d closed=%v, want %v", i, b[i].closed, a[i].closed)
+		}
+		if d := a[i].start.Dist(b[i].start); !(d <= 32*tol+1e-10) {
+			return fmt.Sprintf("subpath %d starts at %v, want %v", i, b[i].start, a[i].start)
+		}
+	}
+	return ""
 }
